@@ -32,6 +32,12 @@ var c01Shapes = map[string]int{ // name -> proto-encoded size
 }
 
 func c01Payload(shape string, pos int) []byte {
+	if shape == "u" {
+		// a message that also carries fields its Go type does not declare
+		p := Payload(40, byte(0x41+pos*16))
+		p[0] = UnknownMark
+		return p
+	}
 	return Payload(c01Shapes[shape], byte(0x41+pos*16+len(shape)))
 }
 
@@ -67,11 +73,14 @@ func c01Cfgs() []Cfg {
 	var out []Cfg
 	for _, p := range AllProtos {
 		for _, js := range []bool{false, true} {
-			for _, comp := range AllComps {
+			for _, comp := range append(append([]Comp{}, AllComps...), CompAsym) {
 				for _, kind := range AllKinds {
 					for _, h := range []int{2, 1} {
 						for _, m := range []memhttp.ReqMode{memhttp.ReqEager, memhttp.ReqLazy} {
 							cfg := Cfg{Proto: p, JSON: js, Comp: comp, Kind: kind, HTTP: h, ReqMode: m}
+							if comp == CompAsym && m != memhttp.ReqEager {
+								continue
+							}
 							if cfg.Valid() {
 								out = append(out, cfg)
 								if h == 2 && m == memhttp.ReqEager && (comp == CompDefault || comp == CompNone) {
@@ -101,6 +110,8 @@ func c01Batch(cfg Cfg, thorough bool) []c01Case {
 		// one message above the 8 MiB recycle cap at each position of a length-2 sequence
 		seqs = append(seqs, []string{"G+", "z"}, []string{"a", "G+"})
 	}
+	// messages carrying fields their Go type does not declare, first, after and around others
+	seqs = append(seqs, []string{"u"}, []string{"a", "u"}, []string{"u", "z", "u"})
 	if thorough {
 		// threshold shapes at every position of length-3 sequences
 		for _, th := range []string{"t-", "t", "t+"} {
@@ -126,6 +137,7 @@ func c01Batch(cfg Cfg, thorough bool) []c01Case {
 	switch cfg.Kind {
 	case KUnary:
 		shapes := append([]string{}, alpha...)
+		shapes = append(shapes, "u")
 		if thorough {
 			shapes = append(shapes, "t-", "t", "t+")
 		}
@@ -178,10 +190,10 @@ func newC01Env(cfg Cfg) *c01Env {
 				}
 				break
 			}
-			run.handlerGot = append(run.handlerGot, cloneBytes(m.Value))
+			run.handlerGot = append(run.handlerGot, MsgBytes(m))
 		}
 		for _, p := range run.resps {
-			if err := s.Send(&BV{Value: p}); err != nil {
+			if err := s.Send(MkMsg(p)); err != nil {
 				run.sendErr = err
 				return err
 			}
@@ -259,9 +271,9 @@ func c01Check(c *ev.Collector, env *c01Env, k c01Case) {
 		ok = false
 		viol("request-pristine", "url", "the request of this call was sent to %q, the client was built for %q (state of an earlier call leaked into it)", ex.URL, BaseURL+Procedure)
 	}
-	if !equalMsgs(run.handlerGot, reqs) {
+	if !equalMsgs(run.handlerGot, ExpectMsgs(reqs, k.Cfg.JSON)) {
 		ok = false
-		viol("handler-recv-seq", "mismatch", "handler received %s, client sent %s", shortMsgs(run.handlerGot), shortMsgs(reqs))
+		viol("handler-recv-seq", "mismatch", "handler received %s, client sent %s", shortMsgs(run.handlerGot), shortMsgs(ExpectMsgs(reqs, k.Cfg.JSON)))
 	}
 	if run.sawEnd && run.handlerEnd != nil {
 		ok = false
@@ -270,9 +282,9 @@ func c01Check(c *ev.Collector, env *c01Env, k c01Case) {
 	if res.Err != nil {
 		ok = false
 		viol("client-clean-end", "error", "client call failed: %v", res.Err)
-	} else if !equalMsgs(res.Msgs, resps) {
+	} else if !equalMsgs(res.Msgs, ExpectMsgs(resps, k.Cfg.JSON)) {
 		ok = false
-		viol("client-recv-seq", "mismatch", "client received %s, handler sent %s", shortMsgs(res.Msgs), shortMsgs(resps))
+		viol("client-recv-seq", "mismatch", "client received %s, handler sent %s", shortMsgs(res.Msgs), shortMsgs(ExpectMsgs(resps, k.Cfg.JSON)))
 	}
 	if ok {
 		c.Outcome("ok")
@@ -311,10 +323,10 @@ func c01Real(c *ev.Collector) {
 					}
 					break
 				}
-				r.handlerGot = append(r.handlerGot, cloneBytes(m.Value))
+				r.handlerGot = append(r.handlerGot, MsgBytes(m))
 			}
 			for _, p := range r.resps {
-				if err := s.Send(&BV{Value: p}); err != nil {
+				if err := s.Send(MkMsg(p)); err != nil {
 					return err
 				}
 			}
